@@ -3,6 +3,11 @@
 import json
 
 CLAIMED = {
+    "C10": {
+        "text": "Proof: for every range value, every body expression and every context, the comprehension each macro expands to (model of antlr/src/macros.rs) is observationally equal (same outcome, same host-call log from every state) to its defining fold: all = conjunction in order stopping at the first falsy element, exists = disjunction stopping at the first truthy one, exists_one = exactly one satisfying element (all visited), map / map-with-filter / filter = transformed / pre-filtered / satisfying elements in order; maps range over their keys; a non-iterable range is an error; an error on a reached element aborts with that error and elements after the deciding one contribute nothing (all_spec ... filter_spec, *_stops, *_error_aborts, *_pure), using the lemma that the step counter never influences evaluation. Tie to the code: every int list of length 0-4 over a 4-symbol alphabet x 8 macro forms x 6 body kinds (pure, erroring on chosen elements, call-logging), maps, two-deep nesting, against the model and an independent reference implementation of the folds; the expansion itself is compared with the parser's for every macro shape.",
+        "technique": "Lean 4: observational-equivalence calculus over the monadic evaluator, loop invariants by induction on the range, steps-irrelevance by induction on Expr + differential correspondence (outcome and ordered call log)",
+        "design_ref": "DESIGN.md section 5, C10",
+    },
     "C11": {
         "text": "Proof: Lean theorems over the context model: redefinition is functional update of one scope (lookup_scopeInsert), lookup returns the binding of the innermost scope that defines the name (lookup_innermost), names an inner scope does not define resolve outward, dropping an inner scope restores the parent exactly for every sequence of inner definitions (drop_restores_parent, induction over the definition list), variables and functions never affect each other's lookups and may share a name, add_function on a child is ignored; inside a macro body the iteration variable denotes the current element whatever the outer context binds, other names keep their outer meaning, and the expression following a macro is evaluated in the original context. Tie to the code: every operation sequence up to length 4 (quick) over 3 names/3 levels with lookups and function probes after each step, replayed against Context through its public API and against an independent stack-of-maps reference; programs nesting up to 3 macros over a 3-name pool shared with context variables and a function.",
         "technique": "Lean 4 refinement of the scope chain to a stack of finite maps (induction over scopes / definition lists) + differential correspondence on operation histories and nested-macro programs",
@@ -19,7 +24,7 @@ CLAIMED = {
         "design_ref": "DESIGN.md section 5, C03",
     },
     "C07": {
-        "text": "Proof: Lean theorems give, for arbitrary operand expressions, the exact sequencing of a call node as an equation between computations: receiver first, then the arguments left to right, each exactly once, then the host call logged with exactly those values (global and receiver style, any arity); strict operators evaluate left then right once; list elements and map key/value pairs in source order. The model is tied to the code by programs in which every leaf and call is a tagged logging host function, comparing the ordered call log with the model and with an independent left-to-right reference interpreter, and by nested call chains to depth 40 whose call count must stay linear.",
+        "text": "Proof: Lean theorems give, for arbitrary operand expressions, the exact sequencing of a call node as an equation between computations: receiver first, then the arguments left to right, each exactly once, then the host call logged with exactly those values (global and receiver style, any arity); strict operators evaluate left then right once; list elements and map key/value pairs in source order. The model is tied to the code by programs in which every leaf and call is a tagged logging host function, comparing the ordered call log with the model and with an independent left-to-right reference interpreter, and by nested call chains to depth 40 whose call count must stay linear. Cost theorems (C07Cost): a comprehension-free program performs at most size(e) node evaluations in any context whose host signatures are linear (all built-ins are), one macro level costs at most 1 + |init| + |range| + n(|cond| + |step|) + |result| for a range of n elements, and logged host calls never outnumber node evaluations; the bound for arbitrarily nested macros is not stated as one closed formula (partial).",
         "technique": "Lean 4 equational theorems about the monadic evaluator (monad laws, induction over signatures) + differential correspondence on ordered host-call logs",
         "design_ref": "DESIGN.md section 5, C07",
     },
